@@ -32,13 +32,19 @@ static void body(Tape &t, Ctx &c) {
 	const char *lv = cpu::LEVEL_NAMES[t.pick<uint32_t>({11, 0, 1, 6, 8, 4})];
 	std::vector<dg::Seg> segs;
 	std::vector<int> kinds;
+	bool far = t.range(0, 7) == 0;
 	for (int i = 0; i < nsteps; i++) {
-		dg::Seg s{(int) t.range(0, 8), (size_t) (t.coin() ? t.range(1, 400) : t.spread(1, 9000)), t.bits64(), (size_t) t.range(1, 300), 0};
+		dg::Seg s{(int) t.range(0, 8), (size_t) (t.coin() ? t.range(0, 400) : t.spread(1, 9000)), t.bits64(), (size_t) t.range(1, 300), 0}; // a zero-length step = a flush request that brings no input
+		// one case in eight: a long first segment so that a flush point lies beyond 64 KiB of input (history offsets no longer fit 16 bits), with
+		// content that repeats 32 KiB later
+		if (i == 0 && far) { s.kind = 5; s.period = 32768; s.len = 65536 + (size_t) (mix64(s.seed) % 70000); }
+		if (i > 0 && far && s.len > 0 && s.len < 300) s.len += 300;
 		if (i > 0 && t.range(0, 2) != 0) { // repeat content from before the previous flush point so a stale hash entry would give a cross-flush match
 			s.kind = 6;
 			size_t prev = 0;
 			for (auto &q : segs) prev += q.len;
 			s.back = (size_t) t.range(1, prev < 32768 ? prev : 32768);
+			if (far && t.coin()) s.back = 32768 - (size_t) t.range(0, 2);
 			if (s.len < 64) s.len += 64;
 		}
 		segs.push_back(s);
@@ -54,7 +60,7 @@ static void body(Tape &t, Ctx &c) {
 	std::vector<uint8_t> all;
 	dg::expand(segs, all);
 	c.fpmix(dg::fingerprint(segs)); for (int k : kinds) c.fpmix(k);
-	c.fpmix(o.level * 100 + o.gzip_flag * 10); c.fpmix(o.hist_bits); c.fpmix(mix64((uint64_t) (uintptr_t) lv)); c.fpmix(in.mode * 7 + in.param); c.fpmix(out.mode * 7 + out.param); c.fpmix(impatient);
+	c.fpmix(o.level * 100 + o.gzip_flag * 10); c.fpmix(o.hist_bits); c.fpmix(mix64((uint64_t) (uintptr_t) lv)); c.fpmix(in.mode * 7 + in.param); c.fpmix(out.mode * 7 + out.param); c.fpmix(impatient); c.fpmix(far);
 	kern::use_level(lv);
 	igz::Deflater d(o);
 	size_t hdr, trl;
@@ -126,6 +132,7 @@ static void body(Tape &t, Ctx &c) {
 	}
 	c.nontrivial = !pts.empty() && after_flush_repeat;
 	c.label(fmt("level=%d", o.level));
+	if (far) c.label("flush-point-beyond-64KiB");
 	c.label(fmt("flush-points=%zu", pts.size() > 3 ? 3 : pts.size()));
 	for (auto &p : pts) c.label(p.kind == FULL_FLUSH ? "completed-full-flush" : "completed-sync-flush");
 	if (out.mode == 1 && out.param < 8) c.label("out<8-bytes");
